@@ -263,8 +263,9 @@ def run_jobs(jobs, workers=8, job_timeout=20.0, mem_gb=6, hooks=True, subcmd="ex
         jobs = [dict(j, timeout=j["timeout"] * scale) if "timeout" in j else j for j in jobs]
         for j in jobs:      # the in-process watchdog of individual queries
             for st in j.get("steps", []):
-                if isinstance(st, dict) and "tmo_ms" in st:
+                if isinstance(st, dict) and "tmo_ms" in st and not st.get("_sc"):
                     st["tmo_ms"] = int(st["tmo_ms"] * scale)
+                    st["_sc"] = True
     shards = [jobs[i::workers] for i in range(workers)]
     import threading
 
